@@ -11,6 +11,7 @@ pub open spec fn pad4(n: int) -> int { (4 - n % 4) % 4 }
 //@spec
     ensures r as int == pad4(value_size as int), r < 4, (value_size + r) % 4 == 0,
 //@head
+    proof { lemma_bitops_commute(); }
     let ghost m = value_size & 3usize;
     assert(m == value_size % 4usize) by (bit_vector) requires m == value_size & 3usize;
     assert(m < 4) by (bit_vector) requires m == value_size & 3usize;
@@ -171,6 +172,7 @@ impl MessageType {
 //@spec
     ensures self.method.0 <= 0x0FFF ==> r == rfc_type(self.method.0, spec_class_bits(self.class)) && r <= 0x3FFF,
 //@before "((self.method.0 & 0x1F80) << 2)"
+    proof { lemma_bitops_commute(); }
     let ghost m = self.method.0;
     let ghost c = spec_class_bits(self.class);
     assert(c <= 3);
@@ -190,6 +192,7 @@ impl TryFrom<u16> for MessageMethod {
     ensures r is Ok <==> value <= 0x0FFF,
         r is Ok ==> r->Ok_0.0 == value,
 //@before "(value & 0xF000 =="
+    proof { lemma_bitops_commute(); }
     assert((value & 0xF000u16 == 0u16) <==> value <= 0x0FFFu16) by (bit_vector);
 //@end
 }
